@@ -910,7 +910,7 @@ static WBXMLError encoder_encode_tree(WBXMLEncoder *encoder)
 
     /* Init Output Buffer */
     if (!encoder_init_output(encoder)) {
-        wbxml_encoder_destroy(encoder);
+        /* The encoder belongs to the caller, who destroys it */
         return WBXML_ERROR_NOT_ENOUGH_MEMORY;
     }
     
